@@ -1,14 +1,17 @@
-// driver: bounded part of C06 — permutation / nested-loop algorithms over int*, {key,tag}* and thin wrapper iterators
+// driver: bounded part of C06 — permutation / nested-loop algorithms over int*, {key,tag}* and thin wrapper iterators,
+// plus the iterator adaptors (reverse_iterator, back/front_insert_iterator, next/prev/advance/distance)
 #include <etl/algorithm.hpp>
 #include <etl/numeric.hpp>
 #include <etl/iterator.hpp>
 #include <etl/functional.hpp>
+#include <etl/utility.hpp>
 #include <etl/vector.hpp>
 #include <etl/new.hpp>
 #define VF_E extern "C"
 namespace vf {
 using diff_t = etl::ptrdiff_t;
-// thin non-random-access iterators over int*
+
+// ---- thin non-random-access iterators over int*
 struct fwd_it {
     using iterator_category = etl::forward_iterator_tag; using value_type = int; using difference_type = etl::ptrdiff_t; using pointer = int*; using reference = int&;
     int* p;
@@ -30,9 +33,46 @@ struct bidi_it {
     friend auto operator!=(bidi_it a, bidi_it b) -> bool { return a.p != b.p; }
 };
 
-using V4 = etl::static_vector<int, 4>;
-VF_E void i_back_insert(V4& v, int const& x) { auto it = etl::back_inserter(v); *it = x; ++it; it++; }
+// random-access iterator that keeps the base pointer fixed and moves an index: same iterator category (and the same `if constexpr`
+// branches) as int*, but CBMC sees every access as base[i] (array index) instead of a byte-level access through a merged pointer
+struct ra_it {
+    using iterator_category = etl::random_access_iterator_tag; using value_type = int; using difference_type = etl::ptrdiff_t; using pointer = int*; using reference = int&;
+    int* b;
+    etl::ptrdiff_t i;
+    auto operator*() const -> int& { return b[i]; }
+    auto operator[](etl::ptrdiff_t n) const -> int& { return b[i + n]; }
+    auto operator++() -> ra_it& { ++i; return *this; }
+    auto operator++(int) -> ra_it { ra_it t{b, i}; ++i; return t; }
+    auto operator--() -> ra_it& { --i; return *this; }
+    auto operator--(int) -> ra_it { ra_it t{b, i}; --i; return t; }
+    auto operator+=(etl::ptrdiff_t n) -> ra_it& { i += n; return *this; }
+    auto operator-=(etl::ptrdiff_t n) -> ra_it& { i -= n; return *this; }
+    friend auto operator+(ra_it a, etl::ptrdiff_t n) -> ra_it { return ra_it{a.b, a.i + n}; }
+    friend auto operator+(etl::ptrdiff_t n, ra_it a) -> ra_it { return ra_it{a.b, a.i + n}; }
+    friend auto operator-(ra_it a, etl::ptrdiff_t n) -> ra_it { return ra_it{a.b, a.i - n}; }
+    friend auto operator-(ra_it a, ra_it c) -> etl::ptrdiff_t { return a.i - c.i; }
+    friend auto operator==(ra_it a, ra_it c) -> bool { return a.i == c.i; }
+    friend auto operator!=(ra_it a, ra_it c) -> bool { return a.i != c.i; }
+    friend auto operator<(ra_it a, ra_it c) -> bool { return a.i < c.i; }
+    friend auto operator<=(ra_it a, ra_it c) -> bool { return a.i <= c.i; }
+    friend auto operator>(ra_it a, ra_it c) -> bool { return a.i > c.i; }
+    friend auto operator>=(ra_it a, ra_it c) -> bool { return a.i >= c.i; }
+};
 
+// ---- comparators / predicates: selector c: 0 less, 1 greater, 2 modulo-equivalence
+struct mod3_less { auto operator()(int const& a, int const& b) const -> bool { return a % 3 < b % 3; } };
+struct mod3_eq { auto operator()(int const& a, int const& b) const -> bool { return a % 3 == b % 3; } };
+struct is_mult3 { auto operator()(int const& x) const -> bool { return x % 3 == 0; } };
+struct is_neg { auto operator()(int const& x) const -> bool { return x < 0; } };
+struct kt { int key; int tag; };
+struct kt_less { auto operator()(kt const& a, kt const& b) const -> bool { return a.key < b.key; } };
+struct kt_greater { auto operator()(kt const& a, kt const& b) const -> bool { return a.key > b.key; } };
+struct kt_mod3 { auto operator()(kt const& a, kt const& b) const -> bool { return a.key % 3 < b.key % 3; } };
+struct kt_is_mult3 { auto operator()(kt const& x) const -> bool { return x.key % 3 == 0; } };
+#define CMP_INT(c, ...) do { if ((c) == 0) { auto cmp = etl::less(); __VA_ARGS__; } else if ((c) == 1) { auto cmp = etl::greater(); __VA_ARGS__; } else { auto cmp = mod3_less{}; __VA_ARGS__; } } while (0)
+#define CMP_KT(c, ...) do { if ((c) == 0) { auto cmp = kt_less{}; __VA_ARGS__; } else if ((c) == 1) { auto cmp = kt_greater{}; __VA_ARGS__; } else { auto cmp = kt_mod3{}; __VA_ARGS__; } } while (0)
+
+// ---- rotate / shift
 VF_E int* a_rotate(int* f, int* m, int* l) { return etl::rotate(f, m, l); }
 VF_E int* a_rotate_fwd(int* f, int* m, int* l) { return etl::rotate(fwd_it{f}, fwd_it{m}, fwd_it{l}).p; }
 VF_E int* a_rotate_copy(int const* f, int const* m, int const* l, int* d) { return etl::rotate_copy(f, m, l, d); }
@@ -40,4 +80,133 @@ VF_E int* a_shift_left(int* f, int* l, diff_t n) { return etl::shift_left(f, l, 
 VF_E int* a_shift_left_fwd(int* f, int* l, diff_t n) { return etl::shift_left(fwd_it{f}, fwd_it{l}, n).p; }
 VF_E int* a_shift_right(int* f, int* l, diff_t n) { return etl::shift_right(f, l, n); }
 VF_E int* a_shift_right_bidi(int* f, int* l, diff_t n) { return etl::shift_right(bidi_it{f}, bidi_it{l}, n).p; }
+
+// ---- partition family
+VF_E int* a_partition(int* f, int* l, int p) { return p == 0 ? etl::partition(f, l, is_mult3{}) : etl::partition(f, l, is_neg{}); }
+VF_E int* a_partition_fwd(int* f, int* l, int p) { return p == 0 ? etl::partition(fwd_it{f}, fwd_it{l}, is_mult3{}).p : etl::partition(fwd_it{f}, fwd_it{l}, is_neg{}).p; }
+VF_E diff_t a_partition_ra(int* b, diff_t n, int p) { return p == 0 ? etl::partition(ra_it{b, 0}, ra_it{b, n}, is_mult3{}).i : etl::partition(ra_it{b, 0}, ra_it{b, n}, is_neg{}).i; }
+VF_E kt* a_stable_partition(kt* f, kt* l) { return etl::stable_partition(f, l, kt_is_mult3{}); }
+VF_E void a_partition_copy(int const* f, int const* l, int* dt, int* df, int** rt, int** rf)
+{
+    auto r = etl::partition_copy(f, l, dt, df, is_mult3{});
+    *rt = r.first;
+    *rf = r.second;
+}
+
+// ---- sorting
+VF_E void a_sort(int* f, int* l, int c) { if (c == 0) { etl::sort(f, l); } else if (c == 1) { etl::sort(f, l, etl::greater()); } else { etl::sort(f, l, mod3_less{}); } }
+VF_E void a_gnome_sort(int* f, int* l, int c) { if (c == 0) { etl::gnome_sort(f, l); } else if (c == 1) { etl::gnome_sort(f, l, etl::greater()); } else { etl::gnome_sort(f, l, mod3_less{}); } }
+VF_E void a_gnome_sort_bidi(int* f, int* l, int c) { CMP_INT(c, etl::gnome_sort(bidi_it{f}, bidi_it{l}, cmp)); }
+VF_E void a_bubble_sort(int* f, int* l, int c) { if (c == 0) { etl::bubble_sort(f, l); } else if (c == 1) { etl::bubble_sort(f, l, etl::greater()); } else { etl::bubble_sort(f, l, mod3_less{}); } }
+VF_E void a_exchange_sort(int* f, int* l, int c) { if (c == 0) { etl::exchange_sort(f, l); } else if (c == 1) { etl::exchange_sort(f, l, etl::greater()); } else { etl::exchange_sort(f, l, mod3_less{}); } }
+VF_E void a_partial_sort(int* f, int* m, int* l, int c) { if (c == 0) { etl::partial_sort(f, m, l); } else if (c == 1) { etl::partial_sort(f, m, l, etl::greater()); } else { etl::partial_sort(f, m, l, mod3_less{}); } }
+VF_E void a_nth_element(int* f, int* m, int* l, int c) { if (c == 0) { etl::nth_element(f, m, l); } else if (c == 1) { etl::nth_element(f, m, l, etl::greater()); } else { etl::nth_element(f, m, l, mod3_less{}); } }
+VF_E void a_stable_sort(kt* f, kt* l, int c) { CMP_KT(c, etl::stable_sort(f, l, cmp)); }
+VF_E void a_insertion_sort(kt* f, kt* l, int c) { CMP_KT(c, etl::insertion_sort(f, l, cmp)); }
+VF_E void a_merge_sort(kt* f, kt* l, int c) { CMP_KT(c, etl::merge_sort(f, l, cmp)); }
+VF_E void a_stable_sort_int(int* f, int* l) { etl::stable_sort(f, l); }
+VF_E void a_insertion_sort_int(int* f, int* l) { etl::insertion_sort(f, l); }
+VF_E void a_merge_sort_int(int* f, int* l) { etl::merge_sort(f, l); }
+
+// ---- searching
+VF_E bool a_is_permutation3(int const* f, int const* l, int const* f2) { return etl::is_permutation(f, l, f2); }
+VF_E bool a_is_permutation4(int const* f, int const* l, int const* f2, int const* l2) { return etl::is_permutation(f, l, f2, l2); }
+VF_E bool a_is_permutation4_fwd(int* f, int* l, int* f2, int* l2) { return etl::is_permutation(fwd_it{f}, fwd_it{l}, fwd_it{f2}, fwd_it{l2}); }
+VF_E int const* a_search(int const* f, int const* l, int const* sf, int const* sl, int p) { return p == 0 ? etl::search(f, l, sf, sl) : etl::search(f, l, sf, sl, mod3_eq{}); }
+VF_E int* a_search_fwd(int* f, int* l, int* sf, int* sl, int p) { return p == 0 ? etl::search(fwd_it{f}, fwd_it{l}, fwd_it{sf}, fwd_it{sl}).p : etl::search(fwd_it{f}, fwd_it{l}, fwd_it{sf}, fwd_it{sl}, mod3_eq{}).p; }
+VF_E int const* a_find_end(int const* f, int const* l, int const* sf, int const* sl, int p) { return p == 0 ? etl::find_end(f, l, sf, sl) : etl::find_end(f, l, sf, sl, mod3_eq{}); }
+VF_E int const* a_search_n(int const* f, int const* l, int count, int const& v, int p) { return p == 0 ? etl::search_n(f, l, count, v) : etl::search_n(f, l, count, v, mod3_eq{}); }
+VF_E int const* a_find_first_of(int const* f, int const* l, int const* sf, int const* sl, int p) { return p == 0 ? etl::find_first_of(f, l, sf, sl) : etl::find_first_of(f, l, sf, sl, mod3_eq{}); }
+VF_E bool a_includes(int const* f1, int const* l1, int const* f2, int const* l2, int c)
+{
+    if (c == 0) { return etl::includes(f1, l1, f2, l2); }
+    if (c == 1) { return etl::includes(f1, l1, f2, l2, etl::greater()); }
+    return etl::includes(f1, l1, f2, l2, mod3_less{});
+}
+
+// ---- merging and set operations ({key,tag} elements: which range an output element comes from is observable)
+VF_E kt* a_merge(kt const* f1, kt const* l1, kt const* f2, kt const* l2, kt* d, int c) { kt* r = nullptr; CMP_KT(c, r = etl::merge(f1, l1, f2, l2, d, cmp)); return r; }
+VF_E int* a_merge_int(int const* f1, int const* l1, int const* f2, int const* l2, int* d) { return etl::merge(f1, l1, f2, l2, d); }
+VF_E int* a_merge_fwd(int* f1, int* l1, int* f2, int* l2, int* d) { return etl::merge(fwd_it{f1}, fwd_it{l1}, fwd_it{f2}, fwd_it{l2}, fwd_it{d}).p; }
+VF_E void a_inplace_merge(kt* f, kt* m, kt* l, int c) { CMP_KT(c, etl::inplace_merge(f, m, l, cmp)); }
+VF_E void a_inplace_merge_int(int* f, int* m, int* l) { etl::inplace_merge(f, m, l); }
+VF_E kt* a_set_union(kt const* f1, kt const* l1, kt const* f2, kt const* l2, kt* d, int c) { kt* r = nullptr; CMP_KT(c, r = etl::set_union(f1, l1, f2, l2, d, cmp)); return r; }
+VF_E kt* a_set_intersection(kt const* f1, kt const* l1, kt const* f2, kt const* l2, kt* d, int c) { kt* r = nullptr; CMP_KT(c, r = etl::set_intersection(f1, l1, f2, l2, d, cmp)); return r; }
+VF_E kt* a_set_difference(kt const* f1, kt const* l1, kt const* f2, kt const* l2, kt* d, int c) { kt* r = nullptr; CMP_KT(c, r = etl::set_difference(f1, l1, f2, l2, d, cmp)); return r; }
+VF_E kt* a_set_symmetric_difference(kt const* f1, kt const* l1, kt const* f2, kt const* l2, kt* d, int c) { kt* r = nullptr; CMP_KT(c, r = etl::set_symmetric_difference(f1, l1, f2, l2, d, cmp)); return r; }
+VF_E int* a_set_ops_int(int which, int const* f1, int const* l1, int const* f2, int const* l2, int* d)
+{
+    if (which == 0) { return etl::set_union(f1, l1, f2, l2, d); }
+    if (which == 1) { return etl::set_intersection(f1, l1, f2, l2, d); }
+    if (which == 2) { return etl::set_difference(f1, l1, f2, l2, d); }
+    return etl::set_symmetric_difference(f1, l1, f2, l2, d);
+}
+
+// ---- numeric: transform_reduce (unsigned elements: wrap-around arithmetic is defined)
+struct u_xor { auto operator()(unsigned a, unsigned b) const -> unsigned { return a ^ b; } };
+struct u_and { auto operator()(unsigned a, unsigned b) const -> unsigned { return a & b; } };
+struct u_triple { auto operator()(unsigned a) const -> unsigned { return a * 3U; } };
+VF_E unsigned a_transform_reduce2(unsigned const* f, unsigned const* l, unsigned const* f2, unsigned init) { return etl::transform_reduce(f, l, f2, init); }
+VF_E unsigned a_transform_reduce2_op(unsigned const* f, unsigned const* l, unsigned const* f2, unsigned init) { return etl::transform_reduce(f, l, f2, init, u_xor{}, u_and{}); }
+VF_E unsigned a_transform_reduce1(unsigned const* f, unsigned const* l, unsigned init) { return etl::transform_reduce(f, l, init, etl::plus(), u_triple{}); }
+
+// ---- reverse_iterator<int*>
+using RI = etl::reverse_iterator<int*>;
+using CRI = etl::reverse_iterator<int const*>;
+VF_E int* ri_base(int* p) { return RI(p).base(); }
+VF_E int* ri_default_base() { RI r; return r.base(); }
+VF_E int* ri_make(int* p) { return etl::make_reverse_iterator(p).base(); }
+VF_E int const* ri_convert(int* p) { RI r(p); CRI c(r); return c.base(); }
+VF_E int const* ri_convert_assign(int* p, int const* q) { RI r(p); CRI c(q); c = r; return c.base(); }
+VF_E int* ri_deref(int* p) { return &*RI(p); }
+VF_E int* ri_arrow(int* p) { return RI(p).operator->(); }
+VF_E int* ri_index(int* p, diff_t n) { return &RI(p)[n]; }
+VF_E int* ri_preinc(int* p, int** res) { RI r(p); RI& q = ++r; *res = q.base(); return r.base(); }
+VF_E int* ri_postinc(int* p, int** res) { RI r(p); RI q = r++; *res = q.base(); return r.base(); }
+VF_E int* ri_predec(int* p, int** res) { RI r(p); RI& q = --r; *res = q.base(); return r.base(); }
+VF_E int* ri_postdec(int* p, int** res) { RI r(p); RI q = r--; *res = q.base(); return r.base(); }
+VF_E int* ri_plus(int* p, diff_t n) { return (RI(p) + n).base(); }
+VF_E int* ri_plus_l(int* p, diff_t n) { return (n + RI(p)).base(); }
+VF_E int* ri_minus(int* p, diff_t n) { return (RI(p) - n).base(); }
+VF_E int* ri_plus_eq(int* p, diff_t n) { RI r(p); r += n; return r.base(); }
+VF_E int* ri_minus_eq(int* p, diff_t n) { RI r(p); r -= n; return r.base(); }
+VF_E diff_t ri_diff(int* p, int* q) { return RI(p) - RI(q); }
+VF_E unsigned ri_cmp(int* p, int* q)
+{
+    RI a(p);
+    RI b(q);
+    return (a == b ? 1U : 0U) | (a != b ? 2U : 0U) | (a < b ? 4U : 0U) | (a <= b ? 8U : 0U) | (a > b ? 16U : 0U) | (a >= b ? 32U : 0U);
+}
+VF_E int* ri_copy(int* f, int* l, int* d) { return etl::copy(RI(l), RI(f), d); }
+
+// ---- insert iterators on static_vector<int, 4>
+using V4 = etl::static_vector<int, 4>;
+struct front_box {   // static_vector has no push_front: the smallest container front_insert_iterator accepts
+    using value_type = int;
+    V4 v;
+    auto push_front(int const& x) -> void { v.insert(v.begin(), x); }
+    auto push_front(int&& x) -> void { v.insert(v.begin(), etl::move(x)); }
+};
+VF_E void i_back_insert(V4& v, int const& x) { auto it = etl::back_inserter(v); *it = x; ++it; it++; }
+VF_E void i_back_insert_rv(V4& v, int x) { etl::back_insert_iterator<V4> it(v); *it = etl::move(x); }
+VF_E void i_back_copy(V4& v, int const* f, int const* l) { etl::copy(f, l, etl::back_inserter(v)); }
+VF_E void i_front_insert(front_box& b, int const& x) { auto it = etl::front_inserter(b); *it = x; ++it; it++; }
+VF_E void i_front_insert_rv(front_box& b, int x) { etl::front_insert_iterator<front_box> it(b); *it = etl::move(x); }
+VF_E void i_front_copy(front_box& b, int const* f, int const* l) { etl::copy(f, l, etl::front_inserter(b)); }
+
+// ---- next / prev / advance / distance
+VF_E int* it_next(int* p, diff_t n) { return etl::next(p, n); }
+VF_E int* it_next1(int* p) { return etl::next(p); }
+VF_E int* it_prev(int* p, diff_t n) { return etl::prev(p, n); }
+VF_E int* it_prev1(int* p) { return etl::prev(p); }
+VF_E int* it_advance(int* p, diff_t n) { etl::advance(p, n); return p; }
+VF_E int* it_advance_int(int* p, int n) { etl::advance(p, n); return p; }
+VF_E diff_t it_distance(int* f, int* l) { return etl::distance(f, l); }
+VF_E int* it_next_fwd(int* p, diff_t n) { return etl::next(fwd_it{p}, n).p; }
+VF_E int* it_advance_fwd(int* p, diff_t n) { fwd_it i{p}; etl::advance(i, n); return i.p; }
+VF_E diff_t it_distance_fwd(int* f, int* l) { return etl::distance(fwd_it{f}, fwd_it{l}); }
+VF_E int* it_next_bidi(int* p, diff_t n) { return etl::next(bidi_it{p}, n).p; }
+VF_E int* it_prev_bidi(int* p, diff_t n) { return etl::prev(bidi_it{p}, n).p; }
+VF_E int* it_advance_bidi(int* p, diff_t n) { bidi_it i{p}; etl::advance(i, n); return i.p; }
+VF_E diff_t it_distance_bidi(int* f, int* l) { return etl::distance(bidi_it{f}, bidi_it{l}); }
 }
